@@ -120,3 +120,11 @@ Theorem C14_crn_results_attributed :
     snd r = exec_lookup t cid (snd (fst r)).
 Proof. exact main_crn_results_attributed. Qed.
 Print Assumptions C14_crn_results_attributed.
+
+(** The same for successive build calls on ONE SynCRN object (the object's species index, graph, attempt and delta
+    memories and application counters persist between the calls): every state reached and the task counts coincide. *)
+Theorem C14_crn_builds_parallel_equals_serial :
+  forall (c : crn_cfg) (parallel : bool) (workers : nat) (t : exec_table) (calls : list (list (option N))) (st0 : crn_state),
+  builds_from c parallel workers t st0 calls = builds_from c false 0%nat t st0 calls.
+Proof. exact main_crn_builds_parallel_equals_serial. Qed.
+Print Assumptions C14_crn_builds_parallel_equals_serial.
